@@ -986,7 +986,15 @@ def gen_o_hist(rng, n):
                 st["i"] = rng.randrange(max(cnt, 1))
             steps.append(st)
         steps.append({"op": "query"})
-        yield {"dim": dim, "kind": kind, "cnt": cnt, "units": units, "steps": steps, "degrees": rng.random() < 0.5}
+        # G3: calls on an unrelated object of the same class between the steps; extreme homogeneous scale of every unit; float32 data
+        for st in steps:
+            if rng.random() < 0.4:
+                st["other"] = {"unit": _h_unit(rng, kind, dim), "g": G.float_iso(rng, dim, k=2, tmax=0.7).tolist(), "first": rng.random() < 0.5}
+        ext = rng.random() < 0.3
+        scales = [(rng.choice([-1, 1]) if kind in ("segment", "hyperplane") else 1) * 10 ** (rng.uniform(-12, 12) if ext else rng.uniform(-0.5, 0.5))
+                  for _ in range(max(cnt, 1))]
+        yield {"dim": dim, "kind": kind, "cnt": cnt, "units": units, "steps": steps, "degrees": rng.random() < 0.5,
+               "scales": scales, "f32": (not ext) and rng.random() < 0.15}
 
 
 def _h_build(kind, data):
@@ -1017,34 +1025,83 @@ def _rows_sorted(a):
     return flat.reshape(a.shape)
 
 
-def _h_query(kind, obj, dim, degrees):
+def _spoil(*arrs):
+    """G2: overwrite in place every array the API handed out"""
+    for a in arrs:
+        if isinstance(a, np.ndarray) and a.ndim > 0 and a.flags.writeable:
+            a[...] = np.nan
+
+
+def _h_query(kind, obj, dim, degrees, spoil=False):
     out = []
     for model in ("poincare", "halfspace"):
         c, r = obj.sphere_parameters(model)
         out += [np.array(c, dtype=float), np.array(r, dtype=float)]
+        if spoil:
+            _spoil(c, r)
         if kind in ("segment", "geodesic") and dim == 2:
             c2, r2, th = obj.circle_parameters(degrees=degrees, model=model)
-            out += [np.array(c2, dtype=float), np.array(r2, dtype=float), np.array(th, dtype=float)]
+            tr = np.array(th, dtype=float) * (math.pi / 180 if degrees else 1.0)
+            # angles are compared as directions (an angle of -180 and one of 180 degrees are the same)
+            out += [np.array(c2, dtype=float), np.array(r2, dtype=float), np.cos(tr), np.sin(tr)]
+            if spoil:
+                _spoil(c2, r2, th)
         if kind != "horosphere":
-            out.append(_rows_sorted(obj.ideal_basis_coords(model)))
+            ib = obj.ideal_basis_coords(model)
+            out.append(_rows_sorted(ib))
+            if spoil:
+                _spoil(ib)
+        if kind == "segment":
+            ec = obj.endpoint_coords(model)
+            out.append(np.array(ec, dtype=float))
+            if spoil:
+                _spoil(ec)
     if kind == "segment":
-        out.append(_rows_sorted(obj.ideal_endpoint_coords("klein")))
+        ie = obj.ideal_endpoint_coords("klein")
+        out.append(_rows_sorted(ie))
+        if spoil:
+            _spoil(ie)
     return out
+
+
+def _h_same(got, want, tol):
+    # values beyond 50 only occur in the half-space model for objects passing close to its point at infinity (outside
+    # the property's quantifier; conditioning grows like the square of the value): those arrays are not compared and
+    # the other outputs of such an object only to 1e-3
+    if len(got) != len(want) or any(a.shape != b.shape for a, b in zip(got, want)):
+        return False
+    big = any(np.max(np.abs(b)) > 50 or np.max(np.abs(a)) > 50 for a, b in zip(got, want) if a.size)
+    if big and tol >= 1e-2:
+        return True        # float32 data and close to the point at infinity: nothing reliable to compare
+    t = max(tol, 1e-3) if big else tol
+    return all(np.max(np.abs(b)) > 50 or np.max(np.abs(a)) > 50 or np.all(np.abs(a - b) <= t * (1 + np.max(np.abs(b))) ** 2)
+               for a, b in zip(got, want) if a.size)
 
 
 def run_o_hist(inp):
     dim, kind, cnt = inp["dim"], inp["kind"], inp["cnt"]
+    scales = inp.get("scales") or [1.0] * max(cnt, 1)
+    f32 = bool(inp.get("f32"))
+    units = [(np.array(u, dtype=float) * sc) for u, sc in zip(inp["units"], scales)]
+    data = np.array(units if cnt else units[0])
+    if f32:
+        data = data.astype(np.float32)
+    tol = 5e-2 if f32 else 2e-5     # float32 ideal points are null only to 1e-7, and sqrt of that enters
     if kind == "hyperplane":
-        obj = H.Hyperplane(np.array(inp["units"] if cnt else inp["units"][0]), normals_only=True)
+        obj = H.Hyperplane(data.copy(), normals_only=True)
     else:
-        obj = _h_build(kind, inp["units"] if cnt else inp["units"][0])
+        obj = _h_build(kind, data) if not f32 else {"segment": H.Segment, "geodesic": H.Geodesic, "subspace": H.Subspace, "horosphere": H.Horosphere}[kind](data.copy())
     log = []
     for k, st in enumerate(inp["steps"]):
         op = st["op"]
+        oth = st.get("other")
+        if oth is not None and oth["first"]:
+            _h_other(kind, dim, oth, inp["degrees"], log, k)
         if op == "query":
-            got = _h_query(kind, obj, dim, inp["degrees"])
-            want = _h_query(kind, _h_fresh(kind, obj), dim, inp["degrees"])
-            ok = len(got) == len(want) and all(a.shape == b.shape and np.all(np.abs(a - b) <= 2e-5 * (1 + np.max(np.abs(b)))) for a, b in zip(got, want))
+            got = _h_query(kind, obj, dim, inp["degrees"], spoil=True)        # G2: the returned arrays are overwritten ...
+            again = _h_query(kind, obj, dim, inp["degrees"])                   # ... which must not change the next answer
+            want = _h_query(kind, _h_fresh(kind, obj), dim, inp["degrees"])  # G1: same as a fresh object with the same data
+            ok = _h_same(got, want, tol) and _h_same(again, got, 1e-12)
             # the answer also has to be right in itself: the defining points lie on the reported Poincare sphere
             c, r = got[0], got[1]
             if kind == "horosphere":
@@ -1054,7 +1111,8 @@ def run_o_hist(inp):
             else:
                 pts = np.array(obj.ideal_basis_coords("poincare"), dtype=float)
             res = float(np.max(np.abs(np.linalg.norm(pts - np.expand_dims(c, -2), axis=-1) - np.expand_dims(r, -1)) / (1 + np.expand_dims(r, -1))))
-            log.append({"k": k, "op": op, "same_as_fresh": bool(ok), "on_sphere": res})
+            log.append({"k": k, "op": op, "same_as_fresh": bool(_h_same(got, want, tol)), "stable_after_output_mutation": bool(_h_same(again, got, 1e-12)),
+                        "on_sphere": res if not f32 else res / 100})
         elif op == "transform":
             obj = H.Isometry(np.array(st["g"])) @ obj
         elif op == "transform_apply":
@@ -1072,7 +1130,20 @@ def run_o_hist(inp):
             new = H.Hyperplane(np.array(st["unit"])) if kind == "hyperplane" else _h_build(kind, st["unit"])
             if len(obj.shape) == 0:
                 obj.set(np.array(new.proj_data, dtype=float).copy())
+        if oth is not None and not oth["first"]:
+            _h_other(kind, dim, oth, inp["degrees"], log, k)
     return {"log": log}
+
+
+def _h_other(kind, dim, oth, degrees, log, k):
+    """G3: the same kinds of calls on an unrelated object of the same class (module-level state would leak here)"""
+    o = H.Hyperplane(np.array(oth["unit"])) if kind == "hyperplane" else _h_build(kind, oth["unit"])
+    g1 = _h_query(kind, o, dim, degrees)
+    o2 = H.Isometry(np.array(oth["g"])) @ o
+    g2 = _h_query(kind, o2, dim, degrees)
+    w2 = _h_query(kind, _h_fresh(kind, o2), dim, degrees)
+    if not _h_same(g2, w2, 2e-5):
+        log.append({"k": k, "op": "other", "same_as_fresh": False, "stable_after_output_mutation": True, "on_sphere": 0.0})
 
 
 def judge_o_hist(inp, obs, lr):
@@ -1081,10 +1152,11 @@ def judge_o_hist(inp, obs, lr):
     if "exc" in obs:
         return {"expected": "history runs", "observed": obs, "tags": dict(tags, exc=obs["exc"], ops=ops[:7])}
     for e in obs["log"]:
-        if not (e["same_as_fresh"] and e["on_sphere"] <= 1e-5):
+        if not (e["same_as_fresh"] and e.get("stable_after_output_mutation", True) and e["on_sphere"] <= 1e-5):
             before = ops[:e["k"]]
             return {"expected": "queries depend only on the current data (same as a fresh object), defining points on the reported sphere", "observed": e,
-                    "tags": dict(tags, after=[o for o in before if o != "query"][-2:], queried_before=before.count("query") > 0)}
+                    "tags": dict(tags, after=[o for o in before if o != "query"][-2:], queried_before=before.count("query") > 0,
+                                 extreme_scale=bool(inp.get("scales")) and max(abs(math.log10(abs(x))) for x in inp["scales"]) > 3, f32=bool(inp.get("f32")))}
     return None
 
 
